@@ -259,7 +259,7 @@ func (c *c04Oracle) Check(w *World, o *Obs) []Violation {
 			ref.last, ref.lastKnown = now, true
 			confirmedOK := !cfg.hasModule("confirm") || row.Confirmed
 			completes := !lockedBefore && confirmedOK && !at.hasFactor
-			uid, has := o.sessPut("uid")
+			uid, has := w.loginPut(o)
 			got := has && uid == at.pid
 			switch {
 			case boundary:
